@@ -410,6 +410,65 @@ theorem assemblePrior_zero (U : ℕ) (F : ℚ) (d : List ℕ) :
   unfold assemblePrior permsOfDosage prodList
   simp [rising, factorial]
 
+theorem zip_replicate_map {β : Type} (a : ℚ) (c : List ℕ) (f : ℚ × ℕ → β) :
+    ((List.replicate c.length a).zip c).map f = c.map (fun d => f (a, d)) := by
+  induction c with
+  | nil => rfl
+  | cons x t ih => simp [List.replicate_succ, ih]
+
+theorem prod_pow_div_factorial (x : ℚ) (c : List ℕ) :
+    (c.map (fun d => x ^ d / (factorial d : ℚ))).prod
+      = x ^ c.sum / (((c.map factorial).prod : ℕ) : ℚ) := by
+  induction c with
+  | nil => simp
+  | cons d t ih =>
+    simp only [List.map_cons, List.prod_cons, List.sum_cons, ih, pow_add]
+    have h1 := factorial_pos' d
+    have h2 : (0 : ℚ) < (((t.map factorial).prod : ℕ) : ℚ) := by
+      have : 0 < (t.map factorial).prod := by
+        apply List.prod_pos; intro y hy
+        obtain ⟨z, _, rfl⟩ := List.mem_map.mp hy
+        rw [factorial_eq]; exact Nat.factorial_pos _
+      exact_mod_cast this
+    push_cast
+    field_simp
+
+/-- **the assemble prior is the call prior with flat frequencies over all `U` possible
+    haplotypes**, for every ploidy, every inbreeding coefficient and every genotype (the dosage vector
+    taken as the full count vector; zero entries and the order of entries are immaterial by
+    `assemblePrior_zero` / `assemblePrior_perm`) -/
+theorem assemblePrior_eq_callPrior_flat (U : ℕ) (hU : 0 < U) (F : ℚ) (g : List ℕ) :
+    assemblePrior U F (countsOf U g) = callPrior U F none g := by
+  have hlen : (countsOf U g).length = U := by simp [countsOf]
+  have hfs : (List.range U).map (freqOf U none) = List.replicate (countsOf U g).length (1 / (U : ℚ)) := by
+    rw [hlen]
+    apply List.ext_getElem
+    · simp
+    · intro i h1 h2; simp [freqOf]
+  have hUq : (U : ℚ) ≠ 0 := by positivity
+  unfold assemblePrior callPrior
+  simp only
+  by_cases hF : F = 0
+  · simp only [hF, if_true]
+    unfold multinomialCounts permsOfDosage
+    rw [prodList_eq, hfs, zip_replicate_map, prod_pow_div_factorial, foldr_mul_eq_prod]
+    rw [one_div, inv_pow]
+    have h2 : (0 : ℚ) < ((((countsOf U g).map factorial).prod : ℕ) : ℚ) := by
+      have : 0 < ((countsOf U g).map factorial).prod := by
+        apply List.prod_pos; intro y hy
+        obtain ⟨z, _, rfl⟩ := List.mem_map.mp hy
+        rw [factorial_eq]; exact Nat.factorial_pos _
+      exact_mod_cast this
+    field_simp
+  · simp only [hF, if_false]
+    unfold dmCounts
+    rw [prodList_eq, prodList_eq, hfs, List.map_replicate, zip_replicate_map]
+    have hsum : (List.replicate (countsOf U g).length (alphaOf F (1 / (U : ℚ)))).sum = (1 - F) / F := by
+      rw [List.sum_replicate, hlen, nsmul_eq_mul]
+      unfold alphaOf
+      field_simp
+    rw [hsum]
+
 /-! ### link to the log-gamma form evaluated by the code -/
 
 /-- `Γ(a + k) = rising a k · Γ(a)`: the code's `lgamma(a + k) − lgamma(a)` is `log (rising a k)` -/
